@@ -88,17 +88,23 @@ RESIDUES = [
     (5, "SN", "DC", 1, "other", None, [("O5'", "O", "-"), ("C5'", "C", "-"), ("C3'", "C", "-"), ("H5'", "H", "-"),
                                        ("H5''", "H", "-")]),
     (5, "SN", "LIG", 2, "other", None, [("O5", "O", "-"), ("C3", "C", "-"), ("H5", "H", "-")]),
+    # values of which a short regular expression matches a proper prefix only: HIS next to HOH, and a
+    # lipid-like chain with carbons C1..C4 and C10..C12 (`name =~ 'C[1-4]'`); used by the
+    # select == eval(select_expression) clause, see selection_gen.PREFIX_REGEX
+    (6, "SD", "HIS", 7, "protein", "H", _BB + [("CB", "C", "s")]),
+    (6, "SD", "LIP", 8, "other", None, [(n, "C", "-") for n in ("C1", "C2", "C3", "C4", "C10", "C11", "C12")]),
 ]
-_OTHER_BONDS = {"DC": [("O5'", "C5'"), ("C5'", "H5'"), ("C5'", "H5''"), ("C5'", "C3'")], "LIG": [("C3", "O5"), ("C3", "H5")]}
+_OTHER_BONDS = {"DC": [("O5'", "C5'"), ("C5'", "H5'"), ("C5'", "H5''"), ("C5'", "C3'")], "LIG": [("C3", "O5"), ("C3", "H5")],
+                "LIP": [("C1", "C2"), ("C2", "C3"), ("C3", "C4"), ("C4", "C10"), ("C10", "C11"), ("C11", "C12")]}
 # standard atomic weights to 3-4 figures (CRC handbook); thresholds used by the generator stay
 # >= 0.4 away from every one of them, so the 4th figure never matters
 MASS = {"H": 1.008, "C": 12.011, "N": 14.007, "O": 15.999, "S": 32.06, "Na": 22.990, "Cl": 35.45, "Ca": 40.078,
         "Ne": 20.180, "VS": 0.0}          # VS: mdtraj's virtual site pseudo-element (history layer only)
 _SIDE_BONDS = {"ALA": [("CA", "CB")], "GLY": [], "SER": [("CA", "CB"), ("CB", "OG")],
                "CYS": [("CA", "CB"), ("CB", "SG")], "LYS": [("CA", "CB"), ("CB", "NZ")],
-               "ARG": [("CA", "CB"), ("CB", "NE"), ("NE", "CZ")]}
+               "ARG": [("CA", "CB"), ("CB", "NE"), ("NE", "CZ")], "HIS": [("CA", "CB")]}
 # name-based truth for topologies that are not the fixture (history layer): residue name -> code
-PROTEIN_CODE = {"ALA": "A", "GLY": "G", "SER": "S", "CYS": "C", "LYS": "K", "ARG": "R"}
+PROTEIN_CODE = {"ALA": "A", "GLY": "G", "SER": "S", "CYS": "C", "LYS": "K", "ARG": "R", "HIS": "H"}
 WATER_NAMES = {"HOH"}
 BACKBONE_NAMES = {"N", "CA", "C", "O"}      # no atom of the fixture or of an edit is called H or HA
 
